@@ -689,26 +689,25 @@ var xfReturnReviewed = map[string]string{
 // xfRuntimeReviewed: index/slice operations that can reach a public function without a handler and
 // are in range for a reason the guard recogniser does not see.
 var xfRuntimeReviewed = map[string]string{
-	"errors.(DocumentError).lineBeginning|slice index Content()[i]":                                   "i starts at e.index, which preparation() keeps below the content length (LB-render), and only decreases down to 0",
-	"errors.(DocumentError).lineEnd|slice index Content()[i]":                                         "guarded by i < e.length, e.length being len(content) set by preparation()",
-	"errors.(DocumentError).lineEnd|slice index Content()[(·-1)]":                                     "content[i-1] under i > 0, with i <= e.length",
-	"errors.(*DocumentError).Line|slice index Content()[i]":                                           "i starts at e.index < len(content) after preparation() (LB-render; empty content returns earlier) and only decreases down to 0",
-	"errors.(*DocumentError).SourceSubString|slice expression Content()[lineBeginning():(·-3)]":       "begin <= end <= len(content): both come from lineBeginning/lineEnd",
-	"errors.(*DocumentError).SourceSubString|slice expression Content()[lineBeginning():lineEnd()]":   "begin <= end <= len(content)",
+	"errors.(DocumentError).lineBeginning|slice index Content()[·]":                                   "i starts at e.index, which preparation() keeps below the content length (LB-render), and only decreases down to 0",
+	"errors.(DocumentError).lineEnd|slice index Content()[·]":                                         "content[i] is guarded by i < e.length, e.length being len(content) set by preparation(); content[i-1] is read under i > 0, with i <= e.length",
+	"errors.(*DocumentError).Line|slice index Content()[·]":                                           "i starts at e.index < len(content) after preparation() (LB-render; empty content returns earlier) and only decreases down to 0",
+	"errors.(*DocumentError).SourceSubString|slice expression Content()[lineBeginning():·]":           "the upper bound is begin+maxLength-3, taken only when end-begin > maxLength, so begin <= bound < end <= len(content)",
+	"errors.(*DocumentError).SourceSubString|slice expression Content()[lineBeginning():lineEnd()]":   "begin <= end <= len(content): both come from lineBeginning/lineEnd of the same prepared error",
 	"errors.(*DocumentError).pointerToTheErrorCharacter|slice expression Content()[lineBeginning():]": "begin <= e.index < len(content)",
-	"bytes.(Bytes).TrimSpacesFromLeft|slice expression b[(·+1):]":                                     "slices at the index of a range loop over the same slice",
-	"<root>.(*ASTNodes).delete|slice expression .order[:(·+1)]":                                       "i is the index of a range loop over m.order",
-	"<root>.(*ASTNodes).delete|slice expression .order[(·+1):]":                                       "i+1 <= len(m.order) for a range index i",
-	"<root>.(*RuleASTNodes).delete|slice expression .order[:(·+1)]":                                   "i is the index of a range loop over m.order",
-	"<root>.(*RuleASTNodes).delete|slice expression .order[(·+1):]":                                   "i+1 <= len(m.order) for a range index i",
-	"internal/json.(*scanner).setExp|slice expression value[.expBegin:]":                              "expBegin is the index of a byte of value that was scanned",
-	"internal/json.(*Number).trimTrailingZerosInTheFractionalPart|slice index .nat[(·-1)]":            "the loop runs while exp != 0 and exp <= len(nat) was checked on entry; each step removes one byte and one unit of exp",
-	"internal/json.(*Number).trimTrailingZerosInTheFractionalPart|slice expression .nat[:(·-1)]":      "same invariant: len(nat) >= exp > 0",
+	"bytes.(Bytes).TrimSpacesFromLeft|slice expression ·[·:]":                                         "slices at the index of a range loop over the same slice",
+	"<root>.(*ASTNodes).delete|slice expression .order[:·]":                                           "the bound is the index of an element of m.order found by the search loop just before",
+	"<root>.(*ASTNodes).delete|slice expression .order[·:]":                                           "index+1 <= len(m.order) for the index of an element of m.order",
+	"<root>.(*RuleASTNodes).delete|slice expression .order[:·]":                                       "the bound is the index of an element of m.order found by the search loop just before",
+	"<root>.(*RuleASTNodes).delete|slice expression .order[·:]":                                       "index+1 <= len(m.order) for the index of an element of m.order",
+	"internal/json.(*scanner).setExp|slice expression ·[.expBegin:]":                                  "expBegin is the index of a byte of value that was scanned",
+	"internal/json.(*Number).trimTrailingZerosInTheFractionalPart|slice index .nat[·]":                "the loop runs while exp != 0 and exp <= len(nat) was checked on entry; each step removes one byte and one unit of exp",
+	"internal/json.(*Number).trimTrailingZerosInTheFractionalPart|slice expression .nat[:·]":          "same invariant: len(nat) >= exp > 0",
 	"internal/json.(*Number).trimLeadingZerosInTheIntegerPart|slice index .nat[0]":                    "the loop runs intLen = len(nat)-exp times at most, removing one byte each time",
 	"internal/json.(*Number).trimLeadingZerosInTheIntegerPart|slice expression .nat[1:]":              "same invariant",
-	"bytes.(Bytes).ParseInt|slice index b[0]":                                                         "reached from the public GuessSchemaType only through the numeral scanner's setExp, with the non-empty exponent text",
-	"bytes.(Bytes).ParseInt|slice expression b[1:]":                                                   "same: b is non-empty",
-	"<root>.(*typeGuesser).isString|slice index .data[(·-1)]":                                         "under length >= 2 in the same condition",
+	"bytes.(Bytes).ParseInt|slice index ·[0]":                                                         "reached from the public GuessSchemaType only through the numeral scanner's setExp, with the non-empty exponent text",
+	"bytes.(Bytes).ParseInt|slice expression ·[1:]":                                                   "same: b is non-empty",
+	"<root>.(*typeGuesser).isString|slice index .data[·]":                                             "under length >= 2 in the same condition",
 }
 
 func runXF1(c *load.Ctx, r *report.RuleResult) { runXFescape(c, r, nil) }
@@ -1066,24 +1065,34 @@ func runXF3(c *load.Ctx, r *report.RuleResult) {
 // operandShape describes the operands of an index/slice operation (part of the key of a reviewed
 // in-range argument: a changed expression must be reviewed again).
 func operandShape(ins ssa.Instruction) string {
-	d := func(v ssa.Value) string {
-		if v == nil {
+	// Operands are described coarsely — constants by value, calls by callee, loads of fields by field
+	// name, everything else (locals, parameters, arithmetic) as "·" — so that renaming a local or
+	// re-spelling a loop keeps the key while replacing an operand by a constant or another source
+	// changes it.
+	var d func(v ssa.Value) string
+	d = func(v ssa.Value) string {
+		switch x := v.(type) {
+		case nil:
 			return ""
-		}
-		if k, ok := v.(*ssa.Const); ok && k.Value != nil {
-			return k.Value.ExactString()
-		}
-		if b, ok := v.(*ssa.BinOp); ok {
-			l, r := "·", "·"
-			if k, ok := b.X.(*ssa.Const); ok && k.Value != nil {
-				l = k.Value.ExactString()
+		case *ssa.Const:
+			if x.Value != nil {
+				return x.Value.ExactString()
 			}
-			if k, ok := b.Y.(*ssa.Const); ok && k.Value != nil {
-				r = k.Value.ExactString()
+			return "nil"
+		case *ssa.Call:
+			if sc := x.Call.StaticCallee(); sc != nil {
+				return sc.Name() + "()"
 			}
-			return "(" + l + b.Op.String() + r + ")"
+		case *ssa.UnOp:
+			if fa, ok := x.X.(*ssa.FieldAddr); ok {
+				return "." + fieldName(fa.X.Type(), fa.Field)
+			}
+		case *ssa.Convert:
+			return d(x.X)
+		case *ssa.ChangeType:
+			return d(x.X)
 		}
-		return describeValue(v)
+		return "·"
 	}
 	switch x := ins.(type) {
 	case *ssa.IndexAddr:
